@@ -22,7 +22,7 @@ import oracles
 PID = 'C03'
 MODNAME = 'C03'
 PROPS_FILE = 'Props/C03.v'
-COQ_FILES = ['Props/C03.v']
+COQ_FILES = ['Proofs/Polymorph.v', 'Props/C03.v']
 ASSUMPTIONS = ['registries have distinct class names (same-named classes collide on the tag by design)']
 
 
@@ -68,6 +68,15 @@ def hier_models(rnd, n):
                                                                        ('union', ['int', ('class', 'Col'), 'bool']),
                                                                        ('optional', ('class', 'Col'))]),
                                       'required': True}]})
+        if rnd.random() < 0.4:
+            # a base with a custom recogniser whose subclasses have none of their own: they are recognised by their signatures
+            specs.append({'name': 'PB', 'kind': 'obj', 'bases': [], 'extra': False, 'registered': True,
+                          'params': [{'name': 'name', 'type': 'str', 'required': True}],
+                          'recognize': [('mapping',), ('attr', 'name', None)]})
+            specs.append({'name': 'PC', 'kind': 'obj', 'bases': ['PB'], 'extra': False, 'registered': True,
+                          'params': [{'name': 'name', 'type': 'str', 'required': True}, {'name': 'radius', 'type': 'int', 'required': True}]})
+            specs.append({'name': 'PD', 'kind': 'obj', 'bases': ['PB'], 'extra': False, 'registered': True,
+                          'params': [{'name': 'name', 'type': 'str', 'required': True}, {'name': 'side', 'type': 'int', 'required': True}]})
         yield specs
 
 
@@ -84,6 +93,8 @@ def tie(ctx, model_ok=True):
                 continue
             for _ in range(6):
                 tyspec = ('class', rnd.choice(names)) if rnd.random() < 0.55 else loadcase.gen_type(rnd, names, 2)
+                if 'PB' in names and rnd.random() < 0.3:
+                    tyspec = ('class', 'PB')
                 try:
                     node = loadcase.gen_node(rnd, specs, tyspec)
                 except (IndexError, ValueError):
@@ -93,7 +104,10 @@ def tie(ctx, model_ok=True):
                     # explicit class tags: naming a candidate, an incompatible class, an unknown class
                     cands = [x for x in loadcase.all_nodes(node) if isinstance(x[0], yaml.MappingNode)]
                     if cands:
-                        cands[rnd.randrange(len(cands))][0].tag = '!' + rnd.choice(names + ['Unknown'])
+                        # also tags that do not start with '!': verbatim !<...> tags, %TAG-expanded shorthands
+                        cands[rnd.randrange(len(cands))][0].tag = rnd.choice(
+                            ['!' + x for x in names + ['Unknown']] * 3 +
+                            ['tag:example.com,2019:' + rnd.choice(names), rnd.choice(names), 'Unknown'])
                         desc = 'class-tag'
                 elif rnd.random() < 0.25:
                     node, desc = loadcase.mutate(rnd, node, specs)
@@ -108,6 +122,26 @@ def tie(ctx, model_ok=True):
                         tyspec = rnd.choice([('union', [('class', 'Col'), 'bool']), ('union', ['bool', ('class', 'Col')]),
                                              ('union', ['int', 'bool', ('class', 'Col')])])
                     desc = 'enum-or-bool'
+                if 'PB' in names and rnd.random() < 0.35:
+                    # directed: the unique most-derived match of this family is known by construction
+                    cls = rnd.choice(['PB', 'PC', 'PD'])
+                    extra = {'PB': [], 'PC': [('radius', loadcase.S('3', 'int'))], 'PD': [('side', loadcase.S('4', 'int'))]}[cls]
+                    node = loadcase.M([(loadcase.S('name'), loadcase.S('n'))] + [(loadcase.S(k), v) for k, v in extra])
+                    tyspec = ('class', 'PB')
+                    r = rnd.random()
+                    if r < 0.4:
+                        desc = 'directed:' + cls
+                    elif r < 0.55:
+                        node.tag = '!' + cls
+                        desc = 'directed:' + cls
+                    elif r < 0.75:
+                        # a tag that names no registered class, in one of the spellings that do not start with '!'
+                        node.tag = rnd.choice(['tag:example.com,2019:' + cls, cls, '!Unknown', 'tag:example.com,2019:Unknown'])
+                        desc = 'directed-fail:unknown-tag'
+                    else:
+                        other = rnd.choice([x for x in ['PC', 'PD'] if x != cls])
+                        node.tag = '!' + other
+                        desc = 'directed-fail:conflicting-tag'
                 try:
                     text = loadcase.serialize(node)
                 except Exception:      # noqa
@@ -174,7 +208,20 @@ def tie(ctx, model_ok=True):
                                       f'but load returned {c.outcome[1]!r}')
         return None
 
-    res = loadprop.run_stream(ctx, 'C03', stream(), [perm_oracle, guess_oracle])
+    def directed_oracle(c):
+        if c.desc.startswith('directed:'):
+            want = c.desc.split(':')[1]
+            if c.outcome[0] != 'ok':
+                return ('most-derived:error', f'{c.text!r} as PB (PB <- PC(radius), PD(side); PB has a custom recogniser): exactly one '
+                                              f'most-derived class matches ({want}) but load raised {c.outcome[1]!r}')
+            if type(c.outcome[1]).__name__ != want:
+                return ('most-derived:wrong-class', f'{c.text!r} as PB: most-derived match is {want}, loaded a {type(c.outcome[1]).__name__}')
+        if c.desc.startswith('directed-fail') and c.outcome[0] == 'ok':
+            return (c.desc.replace('directed-fail', 'tag-ignored'),
+                    f'{c.text!r} as PB: the tag names an unknown or incompatible class, yet load returned a {type(c.outcome[1]).__name__}')
+        return None
+
+    res = loadprop.run_stream(ctx, 'C03', stream(), [perm_oracle, guess_oracle, directed_oracle])
     res['rule'] = (f'hierarchy-biased class models (single/multiple inheritance, abstract and unregistered intermediates, '
                    f'recognisers, enums with bool-like members in unions) x 6 documents (valid, explicit !Class tags naming '
                    f'candidates / incompatible / unknown classes, mutations) x {nperm} random permutations of registration order '
